@@ -1888,8 +1888,19 @@ func (h *c16H) final() {
 		switch {
 		case must && !got:
 			f := strings.TrimSuffix(why, " (inherited)")
-			r.Violate(lostClass(f, true), "probe %s on %q was not delivered to the surviving connection although it holds %s (trie has %v for %s, its session object has %v). %s\n%s",
-				pl[t], t, why, h.trieFilters(c16ID), c16ID, sessTopics(), ctx(), h.history())
+			wb := ""
+			if cl != nil && cl.session != nil {
+				closed := false
+				select {
+				case <-cl.session.done:
+					closed = true
+				default:
+				}
+				wb = fmt.Sprintf(" [registered client: conn %d, write queue %d/%d, disconnected=%v; session: %d pending, closed=%v, registered now: %v]",
+					c16ConnID(cl), len(cl.writeCh), cap(cl.writeCh), cl.statusFlag == Disconnected, len(cl.session.pending), closed, h.b.clients[c16ID] == cl)
+			}
+			r.Violate(lostClass(f, true), "probe %s on %q was not delivered to the surviving connection although it holds %s (trie has %v for %s, its session object has %v)%s. %s\n%s",
+				pl[t], t, why, h.trieFilters(c16ID), c16ID, sessTopics(), wb, ctx(), h.history())
 		case !may && got:
 			// which stale filter routed it?
 			inSession := false
